@@ -11,6 +11,8 @@ Streams
               concrete-syntax trees (the spec side of the theorems is tied to CPython as well)
   pipeline    a module with `X = <expr>` / `def f(p=<expr>)` through the real builder, compared
               with the direct call (glue)
+  unstring    string annotations: a quoted operator expression in every operand slot of every operator
+              and in the usual typing wrappers, through astutils.unstring_annotation
 
 For every case the model answer (`pyval render …`) is compared with the real colorizer's text and
 `is_complete`; the direct oracle re-parses the displayed text with CPython and compares `ast.dump`.
@@ -22,7 +24,7 @@ import itertools
 import re
 from typing import Any, Dict, Iterable, List, Optional, Sequence, Tuple
 
-from ..core import Ctx, enc
+from ..core import Ctx, enc, dec
 
 USES_TABLES = True
 
@@ -32,14 +34,14 @@ THEOREMS = [
     "Pyval.paren_table_old_exact", "Pyval.paren_table_old_counterexample",
     "Pyval.toDoc_flatten", "Pyval.parseA_ok", "Pyval.derives_core",
     "Pyval.render_groups_partial", "Pyval.render_groups_counterexample",
-    "Pyval.tuple_kept_partial", "Pyval.tuple_kept_counterexample",
+    "Pyval.tuple_kept_partial", "Pyval.tuple_kept_counterexample", "Pyval.unstring_counterexample_old",
     "Pyval.str_roundtrip", "Pyval.str_roundtrip_lines", "Pyval.strEscape_no_nul",
     "Pyval.bytes_roundtrip", "Pyval.bytes_roundtrip_old_counterexample",
     "Pyval.display_eq_render", "Pyval.display_const_full", "Pyval.nul_dropped_old_counterexample",
     "Pyval.output_marked", "Pyval.exec_spec", "Pyval.wrap_marked", "Pyval.wrap_prefix_counterexample",
 ]
 PARTIAL = {
-    "Pyval.render_groups_partial": "okTree excludes trees containing a one-element tuple (also as subscript index), an empty tuple as subscript index, or a delegated node on which astor raised ('??'); the right-operand and huge-int exclusions are gone with b6b97a7 / 61018a8",
+    "Pyval.render_groups_partial": "okTree excludes trees containing a one-element tuple (also as subscript index), an empty tuple as subscript index, a delegated node on which astor raised ('??'); the right-operand and huge-int exclusions are gone with b6b97a7 / 61018a8",
     "Pyval.derives_core": "same exclusions as render_groups_partial (it is its induction core)",
     "Pyval.tuple_kept_partial": "holds only for tuples of length != 1 (the colorizer never writes the trailing comma; the fix is not applied because the test-suite pins '(f)')",
     "Pyval.display_eq_render": "general lemma about result items: needs NUL-free item text; for str/bytes constants this is now a theorem (display_const_full); names, float text and astor text are NUL-free because Python source is",
@@ -47,6 +49,7 @@ PARTIAL = {
     "Pyval.paren_table_old_exact": "HISTORICAL: describes the code before b6b97a7 (decisionOld)",
     "Pyval.paren_table_old_counterexample": "HISTORICAL: a-(b-c), a/(b*c), a-(b+c) before b6b97a7",
     "Pyval.bytes_roundtrip_old_counterexample": "HISTORICAL: b\"it's\" before 257fc5a (bytesEscapeOld)",
+    "Pyval.unstring_counterexample_old": "HISTORICAL: \"a | b\" & c before a1c047d (Expr.unlinked)",
     "Pyval.nul_dropped_old_counterexample": "HISTORICAL: '\\x00' before e938da2 (strEscapeOld)",
 }
 RULE = ("exhaustive: every root form (4 unary, 13 binary, and/or with 2 and 3 operands, 10 comparison operators and "
@@ -61,6 +64,7 @@ ASSUMPTIONS = [
     "re.compile(...) calls are outside the model (regex colourizer); they are not generated",
     "what is delegated to astor outside comparison/conditional expressions over names and operators is an opaque leaf: the model is given astor's text; that the text is self-delimiting is checked only by the direct oracle (CPython re-parse)",
     "float/complex constants: the model is given str(value) and applies the inf -> 1e309 replacement itself; numeric formatting is judged by the oracle through the parsed value",
+    "string annotations: since a1c047d every node of an unquoted annotation has its parent link, so the model request is the plain tree (the historical `ul` marker is no longer sent); the unstring stream and its oracle stay",
     "lone surrogates in string constants are checked by the direct oracle only (they cannot travel to the Lean model)",
     "PyvalColorizer.LINEWRAP is a shared docutils node that _trim_result can mutate (only reachable with linebreakok=False and a line length, a configuration pydoctor does not use); the harness restores it before every call in that configuration and counts the event",
 ]
@@ -1067,6 +1071,185 @@ def pipeline_stream(ctx: Ctx) -> None:
     ctx.compare("pyval-pipeline", reqs, impls, pay)
 
 
+# --------------------------------------------------------------------------- unstring stream (string annotations)
+
+def _is_literal(v: ast.AST) -> bool:
+    return (isinstance(v, ast.Name) and v.id == "Literal") or (isinstance(v, ast.Attribute) and v.attr == "Literal")
+
+
+def unstring_expected(node: ast.expr) -> ast.expr:
+    """The documented unquoting of string annotations, written independently of astutils: every str
+    constant is replaced by the expression it spells (recursively), except inside Literal[...]."""
+    class T(ast.NodeTransformer):
+        def visit_Subscript(self, n: ast.Subscript) -> ast.AST:
+            n.value = self.visit(n.value)
+            if _is_literal(n.value):
+                return n
+            n.slice = self.visit(n.slice)
+            return n
+
+        def visit_Constant(self, n: ast.Constant) -> ast.AST:
+            if isinstance(n.value, str):
+                return self.visit(ast.parse(n.value, mode="eval").body)
+            return n
+    return T().visit(node)
+
+
+class _Mark(ast.expr):
+    """a node the colourizer reaches without a parent link (`Expr.unlinked` in the model)"""
+    _fields = ("inner",)
+
+
+def _splice(n: ast.AST, relinked: bool) -> ast.AST:
+    """unquote, wrapping in _Mark the root of every parsed string that has no re-linked ancestor: a
+    parsed string or a Subscript above it (unstring_annotation re-builds every Subscript node, and
+    the colourizer re-links the whole sub-tree of the first parent-less node it meets)"""
+    if isinstance(n, ast.Constant) and isinstance(n.value, str):
+        inner = _splice(ast.parse(n.value, mode="eval").body, True)
+        if relinked:
+            return inner
+        m = _Mark()
+        m.inner = inner
+        return m
+    if isinstance(n, ast.Subscript):
+        # the re-built (parent-less) Subscript re-links everything below it, value and slice
+        n.value = _splice(n.value, True)
+        if _is_literal(n.value):
+            return n
+        n.slice = _splice(n.slice, True)
+        return n
+    for f, val in ast.iter_fields(n):
+        if isinstance(val, list):
+            setattr(n, f, [_splice(x, relinked) if isinstance(x, ast.AST) else x for x in val])
+        elif isinstance(val, ast.AST):
+            setattr(n, f, _splice(val, relinked))
+    return n
+
+
+def unstring_tokens(node: ast.expr) -> List[str]:
+    """request tokens of the annotation as the colourizer meets it"""
+    def rec(n: ast.AST) -> List[str]:
+        if isinstance(n, _Mark):
+            return ["ul"] + rec(n.inner)
+        # natively coloured forms with this recursion; anything else must be marker-free
+        if isinstance(n, ast.UnaryOp):
+            return ["U", OPN[type(n.op)]] + rec(n.operand)
+        if isinstance(n, ast.BinOp):
+            return ["B", OPN[type(n.op)]] + rec(n.left) + rec(n.right)
+        if isinstance(n, ast.BoolOp):
+            return ["L", OPN[type(n.op)], str(len(n.values))] + [t for v in n.values for t in rec(v)]
+        if isinstance(n, ast.List):
+            return ["li", str(len(n.elts))] + [t for v in n.elts for t in rec(v)]
+        if isinstance(n, ast.Tuple):
+            return ["tu", str(len(n.elts))] + [t for v in n.elts for t in rec(v)]
+        if isinstance(n, ast.Subscript):
+            return ["su"] + rec(n.value) + rec(n.slice)
+        if isinstance(n, ast.Call):
+            out = ["ca"] + rec(n.func) + [str(len(n.args))] + [t for v in n.args for t in rec(v)]
+            out.append(str(len(n.keywords)))
+            for kw in n.keywords:
+                out += [enc(kw.arg) if kw.arg is not None else "-"] + rec(kw.value)
+            return out
+        if isinstance(n, ast.Starred):
+            return ["st"] + rec(n.value)
+        if any(isinstance(x, _Mark) for x in ast.walk(n)):
+            raise Skip("marker inside a delegated form")
+        return etoks(n)
+    # since a1c047d unstring_annotation re-links the whole annotation: no node is reached parent-less
+    return rec(_splice(node, True))
+
+
+UNSTRING_WRAPS = ["{0}", "Optional[{0}]", "List[{0}] | None", "Dict[str, {0}]", "Callable[[{0}], x]", "f({0})",
+                  "({0}, x)", "[{0}]", "Literal[{0}]", "-{0}", "x & {0}", "{0} | x", "not {0}", "x or {0}",
+                  "X[{0}] & y", "-{0}[k]"]
+UNSTRING_LITS = ['"a | b"', '"Foo"', '"a or b"', '"-a"', '"List[\'a | b\']"', '"a + b" * "c - d"', '"x[a, b]"',
+                 '"a if b else c"', '"(a, b)"', '"\'nested | s\' & z"', '"a < b"']
+
+
+def unstring_stream(ctx: Ctx) -> None:
+    """string annotations: a string-literal sub-annotation spelling an operator expression in every
+    operand slot of every operator (and in the usual typing wrappers); displayed through the real
+    unstring_annotation + colorize_inline_pyval (parent links as in a built module);
+    oracle: the text re-parsed by CPython == the source after the documented unquoting."""
+    from pydoctor import astutils, model
+    from pydoctor.epydoc.markup._pyval_repr import colorize_inline_pyval
+    from pydoctor.node2stan import gettext
+    system = model.System()
+    mod = system.Module(system, "m")
+    native = [f for f in OP_FORMS if f.cat in ("unary", "binary", "bool")]
+    inner_forms = native + [f for f in OP_FORMS if f.name in ("C:Lt", "C:NotIn", "I")]
+    anns: List[str] = []
+    for outer in native:
+        for i in range(outer.slots):
+            for inner in inner_forms:
+                names = leaf_names()
+                istr = repr(depth1(inner, names))
+                anns.append(outer.build([istr if j == i else next(names) for j in range(outer.slots)]))
+    for w in UNSTRING_WRAPS:
+        for lit in UNSTRING_LITS:
+            anns.append(w.format(lit))
+    pool = native + [fm for fm in FORMS if fm.name in ("sub", "sub:tuple2", "list2", "tuple2", "call:2")]
+
+    def quoted(depth: int) -> str:
+        if depth <= 0 or ctx.rng.random() < 0.25:
+            return ctx.rng.choice(NAMES)
+        f = ctx.rng.choice(pool)
+        ks = []
+        for _j in range(f.slots):
+            k = quoted(depth - 1)
+            k = k if re.fullmatch(r"\w+", k) else "(" + k + ")"
+            if ctx.rng.random() < 0.3 and "'" not in k and '"' not in k:
+                k = repr(k)
+            ks.append(k)
+        return f.build(ks)
+    for _ in range(300 if ctx.quick else 5000):
+        anns.append(quoted(ctx.rng.randint(2, 4)))
+    reqs, impls, pay = [], [], []
+    seen = set()
+    for ann in anns:
+        if ann in seen:
+            continue
+        seen.add(ann)
+        try:
+            tree = ast.parse("x: %s = 1" % ann)
+            expected = unstring_expected(ast.parse(ann, mode="eval").body)
+            toks = unstring_tokens(ast.parse(ann, mode="eval").body)
+        except (SyntaxError, Skip):
+            ctx.count("unstring:skipped-generated")
+            continue
+        astutils.Parentage().visit(tree)                 # what astbuilder does for every module
+        node = astutils.unstring_annotation(tree.body[0].annotation, mod)
+        try:
+            r = colorize_inline_pyval(node)
+            text = "".join(gettext(r.to_node()))
+            ans = "ok %d %s" % (1 if r.is_complete else 0, enc(text))
+        except Exception as e:
+            ctx.fail("crash:" + type(e).__name__, {"annotation": ann}, f"colorizing the annotation {ann!r} raised")
+            continue
+        reqs.append("pyval render 0 1 0 " + " ".join(toks))
+        impls.append(ans)
+        pay.append({"annotation": ann})
+        nt = nontrivial(expected)
+        ctx.case("U|" + ann, nt, None)
+        ctx.count("stream:unstring")
+        if not r.is_complete:
+            continue
+        try:
+            shown = ast.parse(text, mode="eval").body
+        except SyntaxError:
+            shown = None
+        if shown is not None and norm_dump(shown) == norm_dump(expected):
+            continue
+        # does the same expression, written without quotes, read back?  then the unquoting lost it
+        plain = ast.unparse(unstring_expected(ast.parse(ann, mode="eval").body))
+        v, _, _ = readback(plain, (0, 1, False))
+        sig = "annotation:unstringed-subtree-loses-parens" if v == "ok" else classify(plain, (0, 1, False), v)
+        ctx.fail(sig, {"annotation": ann},
+                 f"the annotation {ann} is displayed as {text!r}, which " +
+                 ("is not an expression" if shown is None else f"reads back as {ast.unparse(shown)!r}, not {plain!r}"))
+    ctx.compare("pyval-unstring", reqs, impls, pay)
+
+
 # --------------------------------------------------------------------------- run
 
 def run(ctx: Ctx) -> None:
@@ -1131,11 +1314,38 @@ def run(ctx: Ctx) -> None:
     grammar_stream(ctx)
     # 7. the expressions where pydoctor really shows them
     pipeline_stream(ctx)
+    # 8. string annotations (unstring_annotation splices parsed sub-trees in)
+    unstring_stream(ctx)
     ctx.extra["forms"] = len(FORMS)
 
 
 def replay(ctx: Ctx, obj) -> int:
     inp = obj.get("input") or obj.get("request") or {}
+    if isinstance(inp, dict) and "annotation" in inp:
+        from pydoctor import astutils, model
+        from pydoctor.epydoc.markup._pyval_repr import colorize_inline_pyval
+        from pydoctor.node2stan import gettext
+        ann = inp["annotation"]
+        system = model.System()
+        tree = ast.parse("x: %s = 1" % ann)
+        astutils.Parentage().visit(tree)
+        node = astutils.unstring_annotation(tree.body[0].annotation, system.Module(system, "m"))
+        text = "".join(gettext(colorize_inline_pyval(node).to_node()))
+        expected = unstring_expected(ast.parse(ann, mode="eval").body)
+        print("annotation:", ann)
+        print("impl      :", repr(text))
+        try:
+            req = "pyval render 0 1 0 " + " ".join(unstring_tokens(ast.parse(ann, mode="eval").body))
+            print("model     :", repr(dec(ctx.driver.run([req])[0].split()[2])))
+        except Exception as e:
+            print("model     : unavailable:", e)
+        try:
+            ok = norm_dump(ast.parse(text, mode="eval").body) == norm_dump(expected)
+        except SyntaxError:
+            ok = False
+        print("oracle    :", "property holds on this input" if ok else
+              "annotation:unstringed-subtree-loses-parens / read-back differs from " + ast.unparse(expected))
+        return 0 if ok else 1
     if isinstance(inp, dict) and "source" in inp:
         src = inp["source"]
         cfg = (inp.get("linelen", 0), inp.get("maxlines", 1), bool(inp.get("linebreakok", False)))
